@@ -88,9 +88,24 @@ template<class T> struct StrictAlloc {
 	template<class U> StrictAlloc(StrictAlloc<U> const&) {}
 	auto allocate(std::size_t n) -> pointer { return pointer{typename pointer::from_raw{}, std::allocator<T>{}.allocate(n)}; }
 	void deallocate(pointer p, std::size_t n) { std::allocator<T>{}.deallocate(p.p_, n); }
+	template<class U, class... As> void construct(U* p, As&&... as);     // observable element life cycle (R11.life); U* is what the standard passes
+	template<class U> void destroy(U* p);
 	template<class U> struct rebind { using other = StrictAlloc<U>; };
 	friend bool operator==(StrictAlloc const&, StrictAlloc const&) { return true; }
 	friend bool operator!=(StrictAlloc const&, StrictAlloc const&) { return false; }
+};
+// the same allocator over raw pointers: the reference instantiation of R11.life
+template<class T> struct RawAlloc {
+	using value_type = T;
+	RawAlloc() = default;
+	template<class U> RawAlloc(RawAlloc<U> const&) {}
+	auto allocate(std::size_t n) -> T* { return std::allocator<T>{}.allocate(n); }
+	void deallocate(T* p, std::size_t n) { std::allocator<T>{}.deallocate(p, n); }
+	template<class U, class... As> void construct(U* p, As&&... as);
+	template<class U> void destroy(U* p);
+	template<class U> struct rebind { using other = RawAlloc<U>; };
+	friend bool operator==(RawAlloc const&, RawAlloc const&) { return true; }
+	friend bool operator!=(RawAlloc const&, RawAlloc const&) { return false; }
 };
 struct Elt {            // an element type with non-trivial special members
 	int v;
@@ -170,8 +185,11 @@ def adapt(text):
 
 
 def gen_tu(D, E, index, raw=False, skip=()):
-    """skip: witness names left out (the flow driver must compile as a whole)"""
+    """skip: witness names left out (the flow driver must compile as a whole); raw='life': raw pointers with the observable RawAlloc"""
     lines = ['#include "pre.hpp"', (RAW_ALIASES if raw else ALIASES).format(D=D, E=E)]
+    if raw == "life":
+        lines[1] = lines[1].replace("using A = std::allocator<Tracked>;", "using A = RawAlloc<Tracked>;").replace(
+            "multi::array<Tracked, DD + 1>::iterator", "multi::array<Tracked, DD + 1, RawAlloc<Tracked>>::iterator")
     if raw:
         lines.insert(1, "#define strict_ptr raw_ptr_alias\ntemplate<class T> using raw_ptr_alias = T*;")
     base = sum(l.count("\n") + 1 for l in lines)
@@ -201,6 +219,99 @@ def gen_tu(D, E, index, raw=False, skip=()):
     for name, cond in TYPES:
         add("W11.types", name, 'static_assert(%s, "W11T");' % cond)
     return "\n".join(lines) + "\n"
+
+
+# ---- O11.cast -----------------------------------------------------------------------------------------------------
+# Projections of C12's table that are instantiated over the fancy pointer.  The others do not compile over a pointer without raw conversions on the
+# pinned tree (member_cast applies ->* to the element pointer; reinterpret_array_cast<T2>() / blas::real / imag need a user-provided
+# reinterpret_pointer_cast for the pointer type; so does the const form of reinterpret_array_cast<T2>(n) in the 1-D specialisation): frozen coverage gaps.
+# The three places that branch on std::is_pointer_v<ElementPtr> (const_array_cast, reinterpret_array_cast(n) const&, reinterpret_pointer_cast_) are covered.
+CAST_ITEMS = ("reinterpret_array_cast<double>(2)", "static_array_cast", "as_const()", "const_array_cast", "element_transformed")
+
+
+def cast_item(nm, D):
+    if "member_cast" in nm or not any(k in nm for k in CAST_ITEMS):
+        return False
+    return not (D == 1 and nm == "const reinterpret_array_cast<double>(2)")
+
+
+def cast_rule(rep, wd, tier):
+    """O11.cast: the projection table of C12 instantiated over the strict fancy pointer: the library code that is selected only for non-raw pointers
+    (the `else` branches of `if constexpr(std::is_pointer_v<ElementPtr>)` in const_array_cast, reinterpret_array_cast(n) const&, reinterpret_pointer_cast_)
+    computes the same byte addresses and extents as prescribed for raw pointers."""
+    from checks import c12
+
+    def body(et, D, expr):
+        return ("auto* sb = reinterpret_cast<%s*>(base); multi::subarray<%s, %d, strict_ptr<%s>> v(%s, strict_ptr<%s>::pointer_to(*sb)); observe(%s, base, out, i0, i1, i2, i3, i4);"
+                % (et, et, D, et, c12.mk(D), et, expr))
+    cr = viewops.CustomRun(rep, "C11", True, wd, "fc")
+    c12.add_cast_items(cr, 3 if tier == "thorough" else 2, fam="O11.cast", pre="O11", mkbody=body, only=cast_item)
+    cr.compile(nshards=8, extra_prelude=c12.EXTRA + PRE.replace("#pragma once", ""))
+    cr.check()
+    return len(cr.items)
+
+
+# ---- R11.life -----------------------------------------------------------------------------------------------------
+def life_rule(rep, wd, D, E, skip, strict_mod):
+    """R11.life: per owning / view operation of the driver, the allocator members reachable in the call graph (allocate, deallocate, construct,
+    destroy) are the same in the fancy-pointer instantiation as in the raw-pointer instantiation with the same allocator: no element is constructed,
+    destroyed or its storage obtained behind the allocator's back only because the pointer is not a raw one."""
+    src = os.path.join(wd, "life_D%d_%s.cpp" % (D, E))
+    with open(src, "w") as fh:
+        fh.write(gen_tu(D, E, {}, raw="life", skip=skip))
+    text = ir0.emit_o0(src, src[:-4] + ".ll", defines=("-DNDEBUG",))
+    raw_mod = ir0.parse(text)
+    ir0.demangle_all(raw_mod)
+    rep.units.add(os.path.basename(src))
+
+    def table(mod, alloc):
+        callees = {}
+        for name, f in mod.funcs.items():
+            cs = set()
+            for b in f.blocks.values():
+                for ins in b:
+                    if ins.op in ("call", "invoke") and ins.callee:
+                        cs.add(ins.callee)
+            callees[name] = cs
+        kinds_of = {}
+
+        def kind(c):
+            d = mod.demangled.get(c, c)
+            m = re.match(r"^(?:\S+ )?%s<[^()]*>::(allocate|deallocate|construct|destroy)\b" % alloc, d)
+            return m.group(1) if m else None
+        out = {}
+        for name, f in mod.funcs.items():
+            m = re.match(r"^(?:void )?(o_\w+|i_\d+)\(", f.demangled)
+            if not m:
+                continue
+            seen, todo, kinds = set(), [name], set()
+            while todo:
+                x = todo.pop()
+                if x in seen:
+                    continue
+                seen.add(x)
+                for c in callees.get(x, ()):
+                    k = kind(c)
+                    if k:
+                        kinds.add(k)
+                    if c in mod.funcs:
+                        todo.append(c)
+            out[m.group(1)] = kinds
+        return out
+    ts, tr = table(strict_mod, "StrictAlloc"), table(raw_mod, "RawAlloc")
+    n = 0
+    for op in sorted(set(ts) & set(tr)):
+        key = "R11.life@%s" % op
+        n += 1
+        if ts[op] != tr[op]:
+            miss, extra = sorted(tr[op] - ts[op]), sorted(ts[op] - tr[op])
+            rep.violated(key, "R11.life", "%s (D=%d, element %s): over the fancy pointer the allocator's %s %s not reached although the raw-pointer instantiation reaches "
+                         "it%s: the element life cycle bypasses the allocator for non-raw pointers"
+                         % (op, D, E, ", ".join(miss) or "-", "is" if len(miss) == 1 else "are", ("; additionally reached only over the fancy pointer: " + ", ".join(extra)) if extra else ""),
+                         dict(D=D, element=E, raw=sorted(tr[op]), fancy=sorted(ts[op])))
+        else:
+            rep.ok(key + "#D=%d,%s" % (D, E), "R11.life", dict(members=sorted(ts[op])), nontrivial=bool(ts[op]))
+    return n, sum(1 for k in tr.values() if k)
 
 
 # ---- R11.flow -----------------------------------------------------------------------------------------------------
@@ -266,7 +377,7 @@ def flow_rule(rep, wd, D, E, skip=()):
                          % (common_short(dm)[:120], bad[0]), dict(function=dm[:300], sites=bad[:4], D=D, element=E))
         else:
             rep.ok(key + "#D=%d,%s" % (D, E), "R11.flow", dict(raw_address_values=len(raw)))
-    return nfun, nsrc
+    return nfun, nsrc, mod
 
 
 def common_short(dm):
@@ -350,20 +461,31 @@ def run(tier):
         rep.break_("positive control: a raw conversion of the strict pointer compiles")
     else:
         rep.ok("W11.strict:control", "W11.strict", None, nontrivial=False)
-    nfun = nsrc = 0
+    nfun = nsrc = nlife = nlife_pos = 0
     for D in dims[:2] if tier == "quick" else dims:
         try:
-            a, b = flow_rule(rep, wd, D, "Elt", strict_failed[(D, "Elt")])
+            a, b, smod = flow_rule(rep, wd, D, "Elt", strict_failed[(D, "Elt")])
         except common.AnalysisBroken as e:
             rep.break_("R11.flow (D=%d): %s" % (D, str(e)[:300]))
             continue
         nfun += a
         nsrc += b
+        try:
+            c, d_ = life_rule(rep, wd, D, "Elt", strict_failed[(D, "Elt")], smod)
+        except common.AnalysisBroken as e:
+            rep.break_("R11.life (D=%d): %s" % (D, str(e)[:300]))
+            continue
+        nlife += c
+        nlife_pos += d_
+    ncast = cast_rule(rep, wd, tier)
+    rep.need_instances("O11.cast projections over the fancy pointer", ncast, 14)
     rep.extra["R11.flow_functions_scanned"] = nfun
     rep.extra["R11.flow_raw_address_values"] = nsrc
     rep.need_instances("W11 witnesses", n, 400 if tier == "quick" else 700)
     rep.need_instances("R11.flow library functions scanned", nfun, 300)
     rep.need_instances("R11.flow raw-address sources (positive instances of the pattern)", nsrc, 5)
+    rep.need_instances("R11.life operations compared", nlife, 100)
+    rep.need_instances("R11.life operations that reach an allocator member (positive instances)", nlife_pos, 40)
     rep.explanation = ("Instantiation witnesses (clang front end): the operations of the other properties' drivers compile with a fancy pointer that has no conversion "
                        "to or from raw addresses, so no instantiated library code assumes one; the pointer type is carried through the typedefs; and a def-use "
                        "rule on the unoptimised IR of that instantiation: raw element addresses obtained from a fancy pointer are never used for element arithmetic. "
